@@ -109,7 +109,19 @@ def gen(rng, seed):
             else:
                 p.sink(f'x{i}', [{'pub': f'b{i}', 'form': 'all'}], {})
         if ins:
-            p.sink('sink', ins, {'proc_ms': rng.choice([[0], [0, 60], [150]])})
+            if rng.random() < 0.5:
+                # the rejoin happens in a filter that publishes again (its receiver is coupled with a sender state)
+                jt = [t for e_ in ins for t in pub[e_['pub']]]
+                jb = relay_beh(jt, False)
+                for k_ in ('add', 'drop', 'skip', 'add_mod', 'rename'):
+                    jb.pop(k_, None)
+                if jb.get('ret') == 'empty_on':
+                    jb.pop('ret'); jb.pop('empty_mod')
+                p.relay('j', ins, jb)
+                p.sink('sink', [{'pub': 'j', 'form': 'all'}], {'proc_ms': rng.choice([[0], [0, 60], [150]])})
+                feats.add('rejoin-in-relay')
+            else:
+                p.sink('sink', ins, {'proc_ms': rng.choice([[0], [0, 60], [150]])})
     else:
         sb2 = src_beh('src2', ['cam2'])
         sb2.pop('ret', None)
@@ -299,7 +311,7 @@ def conclusive(agg, tier):
     c = agg['counters']
     if c.get('frames_compared', 0) < 5000:
         return f'only {c.get("frames_compared", 0)} frames compared with the model'
-    for f in ('callable', 'empty-dict', 'lone-frame', 'mid-chain-none', 'slower-than-poll', 'late-starter'):
+    for f in ('callable', 'empty-dict', 'lone-frame', 'mid-chain-none', 'slower-than-poll', 'late-starter', 'rejoin-in-relay'):
         if c.get('feat:' + f, 0) < 20:
             return f'feature {f} sampled only {c.get("feat:" + f, 0)} times'
     if c.get('callables_invoked', 0) < 200:
